@@ -694,6 +694,9 @@ func (g *gramCtx) checkGrammar(c *CheckCtx, gp *gramParser, want gramWant) *gram
 					continue
 				}
 				shapeFails[f.Class+": "+f.Msg+" [path: "+pd+"]"] = true
+				if f.Class == "shared" {
+					linearBad = append(linearBad, fmt.Sprintf("[path: %s] %s", pd, f.Msg))
+				}
 				if f.Class == "niltok" {
 					conserveBad = append(conserveBad, fmt.Sprintf("[path: %s] %s", pd, f.Msg))
 					subBad = append(subBad, fmt.Sprintf("[path: %s] %s", pd, f.Msg))
